@@ -45,7 +45,7 @@ class MultiPeriodStream(ModelMixin["MultiPeriodStream"], Base):
     def total_duration(self) -> datetime.timedelta:
         total: datetime.timedelta = datetime.timedelta()
         for period in self.periods:
-            total += period.duration
+            total += period.presentation_duration()
         return total
 
     def get_fields(self, **kwargs) -> list[FormInputContext]:
